@@ -1,1 +1,510 @@
-//! C03 harnesses (not written yet).
+//! C03 — length and bits alone determine a vector: no hidden state after any history.
+//!
+//! Decided by induction over histories (DESIGN.md §3.3):
+//!  (I1) every constructor returns a state satisfying the representation invariant `Inv`
+//!       (len <= capacity, every storage bit at index >= len zero, spare words included);
+//!  (I2) every mutating operation, from an *arbitrary* `Inv` state with arbitrary arguments,
+//!       ends in an `Inv` state (one harness = one inductive step covering histories of any
+//!       length);
+//!  (I3) observers do not depend on what `Inv` leaves open: spare capacity of a `Bvd` and the
+//!       storage mode of a `Bv`. For `Bvf`, `Inv` + equal (len, bits) means identical structs.
+//! The functional harnesses of C01, C04..C08, C11..C13 additionally pin the *value* of every
+//! post-state as a function of (len, bits) only, from the same arbitrary `Inv` pre-states.
+use crate::big::{m64, Big};
+use crate::nd;
+use crate::scopes::*;
+use bva::{Bit, BitVector, Bv, Bvd, Bvf, Endianness};
+use std::hash::{Hash, Hasher};
+
+// =========================================================================================
+// (I2) one inductive step, Bvf: any editing operation with any argument
+// =========================================================================================
+
+macro_rules! h_step_edit_bvf {
+    ($name:ident, $unw:literal, $group:literal, $a:expr, $b:expr) => {
+        harness!($name, $unw, {
+            let (mut a, ra) = $a;
+            let (b, rb) = $b;
+            let cap = ra.cap;
+            let n = ra.len;
+            let k = nd::usize();
+            let bit = nd::bit();
+            let op = nd::upto(3);
+            w!(n % 8 != 0 && k != n, "subject has a partial top word");
+            w!($group != 0 || (op == 3 && k > n && n % 8 != 0), "group 0: resize grows from a partial word");
+            w!($group != 0 || (op == 3 && k < n), "group 0: resize shrinks");
+            w!($group != 1 || (op == 3 && n > 0), "group 1: shr_in on a non-empty vector");
+            w!($group != 2 || (op == 0 && rb.len > 0 && n % 8 != 0), "group 2: append at an unaligned position");
+            w!($group != 2 || (op == 2 && k > 0 && k < n && rb.len > 0), "group 2: insert in the middle");
+            if $group == 0 {
+                // single-bit edits and shrinking/growing
+                if op == 0 {
+                    nd::assume(k < n);
+                    a.set(k, bit);
+                } else if op == 1 {
+                    nd::assume(n < cap);
+                    a.push(bit);
+                } else if op == 2 {
+                    let _ = a.pop();
+                } else {
+                    nd::assume(k <= cap);
+                    a.resize(k, bit);
+                }
+            } else if $group == 1 {
+                if op == 0 {
+                    a.truncate(k);
+                } else if op == 1 {
+                    nd::assume(k <= cap);
+                    a.sign_extend(k);
+                } else if op == 2 {
+                    let _ = a.shl_in(bit);
+                } else {
+                    let _ = a.shr_in(bit);
+                }
+            } else {
+                // splicing
+                if op == 0 {
+                    nd::assume(n + rb.len <= cap);
+                    a.append(&b);
+                } else if op == 1 {
+                    nd::assume(n + rb.len <= cap);
+                    a.prepend(&b);
+                } else if op == 2 {
+                    nd::assume(k <= n && n + rb.len <= cap);
+                    a.insert(k, &b);
+                } else {
+                    nd::assume(k <= n);
+                    let hi = a.split_off(k);
+                    let rh = hi.into_raw();
+                    assert!(rh.inv(), "C03: split_off result has storage bits at index >= len");
+                }
+            }
+            let r = a.into_raw();
+            assert!(r.len <= r.cap, "C03: len > capacity after an edit");
+            assert!(r.v.fits(r.len), "C03: storage bits at index >= len after an edit");
+        });
+    };
+}
+
+macro_rules! h_step_shift_bvf {
+    ($name:ident, $unw:literal, $a:expr) => {
+        harness!($name, $unw, {
+            let (mut a, ra) = $a;
+            let n = ra.len;
+            let k = nd::usize();
+            let op = nd::upto(4);
+            w!(op < 2 && k > 0 && k < n && n % 8 != 0, "rotation inside a partial top word");
+            w!(op == 2 && k > 0 && k < n, "left shift by less than len");
+            if op == 0 {
+                nd::assume(k <= n);
+                a.rotl(k);
+            } else if op == 1 {
+                nd::assume(k <= n);
+                a.rotr(k);
+            } else if op == 2 {
+                a <<= k;
+            } else if op == 3 {
+                a >>= k;
+            } else {
+                a = !a;
+            }
+            let r = a.into_raw();
+            assert!(r.len == n, "C03: length changed by a shift/rotation/not");
+            assert!(r.v.fits(r.len), "C03: storage bits at index >= len after a shift/rotation/not");
+        });
+    };
+}
+
+macro_rules! h_step_arith_bvf {
+    ($name:ident, $unw:literal, $a:expr, $b:expr) => {
+        harness!($name, $unw, {
+            let (mut a, ra) = $a;
+            let (b, rb) = $b;
+            let n = ra.len;
+            let op = nd::upto(4);
+            w!(rb.len > n && !rb.v.fits(n), "rhs longer than lhs with set bits beyond len(lhs)");
+            w!(op == 4 && n > 0 && ra.v.is_zero() && !rb.v.trunc(n).is_zero(), "0 - b borrows through every word");
+            if op == 0 {
+                a &= &b;
+            } else if op == 1 {
+                a |= &b;
+            } else if op == 2 {
+                a ^= &b;
+            } else if op == 3 {
+                a += &b;
+            } else {
+                a -= &b;
+            }
+            let r = a.into_raw();
+            assert!(r.len == n, "C03: length changed by an arithmetic/logic operator");
+            assert!(r.v.fits(r.len), "C03: storage bits at index >= len after an arithmetic/logic operator");
+        });
+    };
+}
+
+macro_rules! h_step_muldiv_bvf {
+    ($name:ident, $unw:literal, $a:expr, $b:expr) => {
+        harness!($name, $unw, {
+            let (mut a, ra) = $a;
+            let (b, rb) = $b;
+            let n = ra.len;
+            let op = nd::upto(2);
+            nd::assume(op == 0 || !rb.v.is_zero());
+            w!(op == 1 && rb.len > n, "divisor longer than the dividend");
+            w!(op == 0 && n > 0 && n < 8, "product in a partial word");
+            if op == 0 {
+                a *= &b;
+            } else if op == 1 {
+                a /= &b;
+            } else {
+                a %= &b;
+            }
+            let r = a.into_raw();
+            assert!(r.len == n, "C03: length changed by * / %");
+            assert!(r.v.fits(r.len), "C03: storage bits at index >= len after * / %");
+        });
+    };
+}
+
+h_step_edit_bvf!(c03_q_step_edit0_f8x2, 5, 0, f8x2(anylen(16)), f8x1(anylen(8)));
+h_step_edit_bvf!(c03_q_step_edit1_f8x2, 5, 1, f8x2(anylen(16)), f8x1(anylen(8)));
+h_step_edit_bvf!(c03_q_step_edit2_f8x2_f8x3, 6, 2, f8x2(anylen(16)), f8x3(anylen(24)));
+h_step_edit_bvf!(c03_q_step_edit0_f8x3, 6, 0, f8x3(anylen(24)), f8x1(anylen(8)));
+h_step_edit_bvf!(c03_q_step_edit1_f8x3, 6, 1, f8x3(anylen(24)), f8x1(anylen(8)));
+h_step_edit_bvf!(c03_q_step_edit2_f8x3_f16x1, 6, 2, f8x3(anylen(24)), f16x1(anylen(16)));
+h_step_edit_bvf!(c03_q_step_edit0_f64x2, 5, 0, f64x2(anylen(128)), f8x1(anylen(8)));
+h_step_edit_bvf!(c03_q_step_edit1_f64x2, 5, 1, f64x2(anylen(128)), f8x1(anylen(8)));
+h_step_edit_bvf!(c03_t_step_edit2_f8x3_bvd1, 11, 2, f8x3(anylen(24)), bvd1(anylen(64)));
+h_step_edit_bvf!(c03_t_step_edit2_f16x2_f8x3, 7, 2, f16x2(anylen(32)), f8x3(anylen(24)));
+h_step_edit_bvf!(c03_t_step_edit0_f16x2, 5, 0, f16x2(anylen(32)), f8x1(anylen(8)));
+h_step_edit_bvf!(c03_t_step_edit1_f16x2, 5, 1, f16x2(anylen(32)), f8x1(anylen(8)));
+h_step_shift_bvf!(c03_q_step_shift_f8x2, 6, f8x2(anylen(16)));
+h_step_shift_bvf!(c03_q_step_shift_f8x3, 8, f8x3(anylen(24)));
+h_step_shift_bvf!(c03_q_step_shift_f16x2, 6, f16x2(anylen(32)));
+h_step_shift_bvf!(c03_q_step_shift_f64x2, 6, f64x2(anylen(128)));
+h_step_arith_bvf!(c03_q_step_arith_f8x2_f8x3, 4, f8x2(anylen(16)), f8x3(anylen(24)));
+h_step_arith_bvf!(c03_q_step_arith_f8x2_u128, 4, f8x2(anylen(16)), iu128());
+h_step_arith_bvf!(c03_q_step_arith_f16x2_f8x3, 4, f16x2(anylen(32)), f8x3(anylen(24)));
+h_step_arith_bvf!(c03_q_step_arith_f64x2_f64x3, 4, f64x2(anylen(128)), f64x3(anylen(192)));
+h_step_arith_bvf!(c03_q_step_arith_f64x2_bvd3, 4, f64x2(anylen(128)), bvd3(anylen(192)));
+h_step_muldiv_bvf!(c03_t_step_muldiv_f8x1_f8x2, 6, f8x1(anylen(4)), f8x2(anylen(16)));
+h_step_muldiv_bvf!(c03_t_step_muldiv_f8x1_f8x2_full, 10, f8x1(anylen(8)), f8x2(anylen(16)));
+h_step_muldiv_bvf!(c03_t_step_muldiv_f8x1_u64, 10, f8x1(anylen(8)), iu64());
+
+// =========================================================================================
+// (I2) one inductive step, heap-backed subjects: one operation per harness
+// =========================================================================================
+
+/// `$body` mutates `a` (may use `b`, `rb`, `k`, `bit`, `n`); post-state must satisfy Inv.
+macro_rules! h_step_heap {
+    ($name:ident, $unw:literal, $a:expr, $b:expr, |$av:ident, $bv:ident, $rb:ident, $k:ident, $bit:ident, $n:ident| $body:block) => {
+        harness!($name, $unw, {
+            let (mut $av, ra) = $a;
+            let ($bv, $rb) = $b;
+            let $n = ra.len;
+            let $k = nd::usize();
+            let $bit = nd::bit();
+            $body;
+            let r = $av.into_raw();
+            w!(r.len > 0, "post-state reached with a non-empty vector");
+            assert!(r.len <= r.cap, "C03: len > capacity after the operation");
+            assert!(r.v.fits(r.len), "C03: storage bits at index >= len (padding or spare words) after the operation");
+        });
+    };
+}
+
+// Bvd with 2 allocated words. Operations that may reallocate (resize/truncate/sign_extend/
+// append/prepend/push go through reserve) get *concrete* target lengths: with a symbolic
+// target CBMC has to encode the (infeasible) reallocation with a symbolic size and runs out
+// of memory.
+h_step_heap!(c03_q_heap_set_bvd2, 4, bvd2(anylen(128)), iu8(), |a, b, rb, k, bit, n| { nd::assume(k < n); a.set(k, bit); });
+h_step_heap!(c03_q_heap_pop_bvd2, 4, bvd2(anylen(128)), iu8(), |a, b, rb, k, bit, n| { let _ = a.pop(); });
+h_step_heap!(c03_q_heap_push_bvd2_l63, 4, bvd2(63), iu8(), |a, b, rb, k, bit, n| { a.push(bit); });
+h_step_heap!(c03_q_heap_push_bvd2_l64, 4, bvd2(64), iu8(), |a, b, rb, k, bit, n| { a.push(bit); });
+h_step_heap!(c03_q_heap_push_full_bvd1, 4, bvd1(64), iu8(), |a, b, rb, k, bit, n| { a.push(bit); });
+// resize/truncate/sign_extend: `reserve(new_len - len)` recomputes `len + (new_len - len)`, which
+// CBMC keeps symbolic unless both are concrete -> concrete (len, target) pairs, symbolic contents.
+h_step_heap!(c03_q_heap_resize_bvd2_l70_to64, 5, bvd2(70), iu8(), |a, b, rb, k, bit, n| { a.resize(64, bit); });
+h_step_heap!(c03_q_heap_resize_bvd2_l70_to3, 5, bvd2(70), iu8(), |a, b, rb, k, bit, n| { a.resize(3, bit); });
+h_step_heap!(c03_q_heap_resize_bvd2_l64_to65, 5, bvd2(64), iu8(), |a, b, rb, k, bit, n| { a.resize(65, bit); });
+h_step_heap!(c03_q_heap_resize_bvd2_l1_to128, 5, bvd2(1), iu8(), |a, b, rb, k, bit, n| { a.resize(128, bit); });
+h_step_heap!(c03_q_heap_resize_bvd2_l63_to127, 5, bvd2(63), iu8(), |a, b, rb, k, bit, n| { a.resize(127, bit); });
+h_step_heap!(c03_q_heap_resize_bvd2_l128_to0_to5, 5, bvd2(128), iu8(), |a, b, rb, k, bit, n| { a.resize(0, bit); a.resize(5, Bit::One); });
+h_step_heap!(c03_q_heap_resize_grow_bvd1_l60_to129, 5, bvd1(60), iu8(), |a, b, rb, k, bit, n| { a.resize(129, bit); });
+h_step_heap!(c03_q_heap_truncate_bvd2_l100_to65, 5, bvd2(100), iu8(), |a, b, rb, k, bit, n| { a.truncate(65); });
+h_step_heap!(c03_q_heap_truncate_bvd2_l100_to1, 5, bvd2(100), iu8(), |a, b, rb, k, bit, n| { a.truncate(1); });
+h_step_heap!(c03_q_heap_signext_bvd2_l66_to127, 5, bvd2(66), iu8(), |a, b, rb, k, bit, n| { a.sign_extend(127); });
+h_step_heap!(c03_q_heap_resize_bvfix_l100_to77, 5, bvfix(100), iu8(), |a, b, rb, k, bit, n| { a.resize(77, bit); });
+h_step_heap!(c03_q_heap_resize_bvfix_l100_to130, 5, bvfix(100), iu8(), |a, b, rb, k, bit, n| { a.resize(130, bit); });
+h_step_heap!(c03_q_heap_resize_bvdyn2_l70_to100, 5, bvdyn2(70), iu8(), |a, b, rb, k, bit, n| { a.resize(100, bit); });
+h_step_heap!(c03_q_heap_append_bvd2_l60_f8x3_l21, 9, bvd2(60), f8x3(21), |a, b, rb, k, bit, n| { a.append(&b); });
+h_step_heap!(c03_q_heap_append_bvd2_l64_f16x1_l9, 9, bvd2(64), f16x1(9), |a, b, rb, k, bit, n| { a.append(&b); });
+h_step_heap!(c03_q_heap_prepend_bvd2_l70_f16x1_l13, 9, bvd2(70), f16x1(13), |a, b, rb, k, bit, n| { a.prepend(&b); });
+h_step_heap!(c03_q_heap_shlin_bvd2, 4, bvd2(anylen(128)), iu8(), |a, b, rb, k, bit, n| { let _ = a.shl_in(bit); });
+h_step_heap!(c03_q_heap_shrin_bvd2, 4, bvd2(anylen(128)), iu8(), |a, b, rb, k, bit, n| { let _ = a.shr_in(bit); });
+h_step_heap!(c03_q_heap_rotl_bvd2, 6, bvd2(anylen(128)), iu8(), |a, b, rb, k, bit, n| { nd::assume(k <= n); a.rotl(k); });
+h_step_heap!(c03_q_heap_rotr_bvd2, 6, bvd2(anylen(128)), iu8(), |a, b, rb, k, bit, n| { nd::assume(k <= n); a.rotr(k); });
+h_step_heap!(c03_q_heap_shl_bvd2, 6, bvd2(anylen(128)), iu8(), |a, b, rb, k, bit, n| { a <<= k; });
+h_step_heap!(c03_q_heap_shr_bvd2, 6, bvd2(anylen(128)), iu8(), |a, b, rb, k, bit, n| { a >>= k; });
+h_step_heap!(c03_q_heap_not_bvd2, 4, bvd2(anylen(128)), iu8(), |a, b, rb, k, bit, n| { a = !a; });
+h_step_heap!(c03_q_heap_and_bvd2_f64x3, 4, bvd2(anylen(128)), f64x3(anylen(192)), |a, b, rb, k, bit, n| { a &= &b; });
+h_step_heap!(c03_q_heap_or_bvd2_f64x3, 4, bvd2(anylen(128)), f64x3(anylen(192)), |a, b, rb, k, bit, n| { a |= &b; });
+h_step_heap!(c03_q_heap_xor_bvd2_bvd3, 4, bvd2(anylen(128)), bvd3(anylen(192)), |a, b, rb, k, bit, n| { a ^= &b; });
+h_step_heap!(c03_q_heap_add_bvd2_f64x3, 4, bvd2(anylen(128)), f64x3(anylen(192)), |a, b, rb, k, bit, n| { a += &b; });
+h_step_heap!(c03_q_heap_sub_bvd2_f64x3, 4, bvd2(anylen(128)), f64x3(anylen(192)), |a, b, rb, k, bit, n| { a -= &b; });
+h_step_heap!(c03_q_heap_sub_bvd2_u128, 4, bvd2(anylen(128)), iu128(), |a, b, rb, k, bit, n| { a -= &b; });
+h_step_heap!(c03_q_heap_or_bvd2_u128, 4, bvd2(anylen(128)), iu128(), |a, b, rb, k, bit, n| { a |= &b; });
+h_step_heap!(c03_q_heap_reserve_bvd2_l70_60, 4, bvd2(70), iu8(), |a, b, rb, k, bit, n| { a.reserve(60); });
+h_step_heap!(c03_q_heap_reserve_grow_bvd1_l33, 4, bvd1(33), iu8(), |a, b, rb, k, bit, n| { a.reserve(100); });
+h_step_heap!(c03_q_heap_shrink_bvd3_l64, 5, bvd3(64), iu8(), |a, b, rb, k, bit, n| { a.shrink_to_fit(); });
+h_step_heap!(c03_q_heap_shrink_bvd3_l65, 5, bvd3(65), iu8(), |a, b, rb, k, bit, n| { a.shrink_to_fit(); });
+h_step_heap!(c03_q_heap_shrink_bvd2_l1, 4, bvd2(1), iu8(), |a, b, rb, k, bit, n| { a.shrink_to_fit(); });
+// Bv in both modes, including the switches
+h_step_heap!(c03_q_heap_push_bvfix_full, 5, bvfix(128), iu8(), |a, b, rb, k, bit, n| { a.push(bit); });
+h_step_heap!(c03_q_heap_or_bvfix_bvdyn3, 4, bvfix(anylen(128)), bvdyn3(anylen(192)), |a, b, rb, k, bit, n| { a |= &b; });
+h_step_heap!(c03_q_heap_sub_bvdyn2_f64x3, 4, bvdyn2(anylen(128)), f64x3(anylen(192)), |a, b, rb, k, bit, n| { a -= &b; });
+h_step_heap!(c03_q_heap_xor_bvdyn2_u128, 4, bvdyn2(anylen(128)), iu128(), |a, b, rb, k, bit, n| { a ^= &b; });
+h_step_heap!(c03_q_heap_shrink_bvdyn2_l100, 5, bvdyn2(100), iu8(), |a, b, rb, k, bit, n| { a.shrink_to_fit(); });
+h_step_heap!(c03_q_heap_reserve_bvfix_l100, 5, bvfix(100), iu8(), |a, b, rb, k, bit, n| { a.reserve(60); });
+h_step_heap!(c03_t_heap_append_bvfix_l70_f64x2_l60, 6, bvfix(70), f64x2(60), |a, b, rb, k, bit, n| { a.append(&b); });
+h_step_heap!(c03_t_heap_shl_bvd3, 8, bvd3(anylen(192)), iu8(), |a, b, rb, k, bit, n| { a <<= k; });
+h_step_heap!(c03_t_heap_shr_bvd3, 8, bvd3(anylen(192)), iu8(), |a, b, rb, k, bit, n| { a >>= k; });
+h_step_heap!(c03_t_heap_add_bvd3_f128x2, 5, bvd3(anylen(192)), f128x2(anylen(256)), |a, b, rb, k, bit, n| { a += &b; });
+
+// =========================================================================================
+// (I1) constructors establish Inv
+// =========================================================================================
+
+macro_rules! h_ctor {
+    ($name:ident, $unw:literal, $ty:ty, |$k:ident, $bit:ident| $mk:expr, $wantlen:expr) => {
+        harness!($name, $unw, {
+            let $k = nd::usize();
+            let $bit = nd::bit();
+            let v: $ty = $mk;
+            let r = v.into_raw();
+            w!(r.len == $wantlen, "constructor returned");
+            assert!(r.len == $wantlen, "C03: constructor returned the wrong length");
+            assert!(r.len <= r.cap, "C03: constructor returned len > capacity");
+            assert!(r.v.fits(r.len), "C03: constructor left storage bits at index >= len");
+        });
+    };
+}
+
+h_ctor!(c03_q_ctor_zeros_f8x3, 5, Bvf<u8, 3>, |k, bit| { nd::assume(k <= 24); Bvf::<u8, 3>::zeros(k) }, k);
+h_ctor!(c03_q_ctor_ones_f8x3, 5, Bvf<u8, 3>, |k, bit| { nd::assume(k <= 24); Bvf::<u8, 3>::ones(k) }, k);
+h_ctor!(c03_q_ctor_repeat_f16x2, 4, Bvf<u16, 2>, |k, bit| { nd::assume(k <= 32); Bvf::<u16, 2>::repeat(bit, k) }, k);
+h_ctor!(c03_q_ctor_ones_f64x2, 4, Bvf<u64, 2>, |k, bit| { nd::assume(k <= 128); Bvf::<u64, 2>::ones(k) }, k);
+h_ctor!(c03_q_ctor_ones_bv_inline, 4, Bv, |k, bit| { nd::assume(k <= 128); Bv::ones(k) }, k);
+h_ctor!(c03_q_ctor_ones_bvd_l1, 4, Bvd, |k, bit| Bvd::ones(1), 1);
+h_ctor!(c03_q_ctor_ones_bvd_l64, 4, Bvd, |k, bit| Bvd::ones(64), 64);
+h_ctor!(c03_q_ctor_ones_bvd_l65, 4, Bvd, |k, bit| Bvd::ones(65), 65);
+h_ctor!(c03_q_ctor_ones_bvd_l127, 4, Bvd, |k, bit| Bvd::ones(127), 127);
+h_ctor!(c03_q_ctor_repeat_bvd_l130, 5, Bvd, |k, bit| Bvd::repeat(bit, 130), 130);
+h_ctor!(c03_q_ctor_ones_bv_l129, 5, Bv, |k, bit| Bv::ones(129), 129);
+h_ctor!(c03_q_ctor_withcap_bvd_c130, 5, Bvd, |k, bit| Bvd::with_capacity(130), 0);
+h_ctor!(c03_q_ctor_withcap_bv_c129, 5, Bv, |k, bit| Bv::with_capacity(129), 0);
+h_ctor!(c03_q_ctor_withcap_f8x2, 4, Bvf<u8, 2>, |k, bit| Bvf::<u8, 2>::with_capacity(k), 0);
+h_ctor!(c03_t_ctor_ones_bvd_sym, 4, Bvd, |k, bit| { nd::assume(k <= 128); Bvd::ones(k) }, k);
+
+/// `read` with arbitrary surplus bits in the most significant byte (the case the test-suite
+/// never feeds): the result must have exactly `len` bits and clean storage.
+macro_rules! h_read {
+    ($name:ident, $unw:literal, $ty:ty, $nbytes:literal, $len:literal) => {
+        harness!($name, $unw, {
+            let mut bytes = [0u8; $nbytes];
+            let mut i = 0;
+            while i < $nbytes {
+                bytes[i] = nd::u8();
+                i += 1;
+            }
+            // the length is concrete because read() allocates its buffer by length
+            let len: usize = $len;
+            let e = nd::endianness();
+            let top = if matches!(e, Endianness::Big) { bytes[0] } else { bytes[$nbytes - 1] };
+            w!(len % 8 != 0 && (top >> (len % 8)) != 0, "surplus bits of the most significant byte are set");
+            let mut rd: &[u8] = &bytes;
+            let v = match <$ty>::read(&mut rd, len, e) {
+                Ok(v) => v,
+                Err(err) => {
+                    std::mem::forget(err);
+                    panic!("C03: read failed on sufficient input");
+                }
+            };
+            let r = v.into_raw();
+            assert!(r.len == len, "C03: read returned the wrong length");
+            assert!(r.v.fits(r.len), "C03: read kept surplus bits beyond len in storage");
+        });
+    };
+}
+
+h_read!(c03_q_ctor_read_f8x2_l13, 4, Bvf<u8, 2>, 2, 13);
+h_read!(c03_q_ctor_read_f8x3_l9, 5, Bvf<u8, 3>, 2, 9);
+h_read!(c03_q_ctor_read_f16x2_l21, 5, Bvf<u16, 2>, 3, 21);
+h_read!(c03_q_ctor_read_f64x2_l70, 11, Bvf<u64, 2>, 9, 70);
+h_read!(c03_q_ctor_read_bv_l13, 4, Bv, 2, 13);
+h_read!(c03_q_ctor_read_bvd_l70, 11, Bvd, 9, 70);
+h_read!(c03_t_ctor_read_bv_l133, 19, Bv, 17, 133);
+
+// =========================================================================================
+// (I3) observers do not see spare capacity or the storage mode
+// =========================================================================================
+
+/// Records the words fed to it (the Hash impls of bva feed one usize and then u64 words), so
+/// that two hash streams can be compared exactly. Loop-free.
+pub struct Rec {
+    pub w: [u64; 6],
+    pub n: usize,
+}
+impl Rec {
+    pub fn new() -> Rec {
+        Rec { w: [0; 6], n: 0 }
+    }
+    #[inline(always)]
+    fn put(&mut self, x: u64) {
+        if self.n < 6 {
+            self.w[self.n] = x;
+        }
+        self.n += 1;
+    }
+    #[inline(always)]
+    pub fn same(&self, o: &Rec) -> bool {
+        self.n == o.n
+            && self.n <= 6
+            && self.w[0] == o.w[0]
+            && self.w[1] == o.w[1]
+            && self.w[2] == o.w[2]
+            && self.w[3] == o.w[3]
+            && self.w[4] == o.w[4]
+            && self.w[5] == o.w[5]
+    }
+}
+impl Hasher for Rec {
+    fn finish(&self) -> u64 {
+        0
+    }
+    fn write(&mut self, _bytes: &[u8]) {
+        panic!("HARNESS: byte-wise Hasher::write is not modelled by the recording hasher");
+    }
+    fn write_u8(&mut self, i: u8) {
+        self.put(0x0800_0000_0000_0000 | i as u64)
+    }
+    fn write_u16(&mut self, i: u16) {
+        self.put(0x1000_0000_0000_0000 | i as u64)
+    }
+    fn write_u32(&mut self, i: u32) {
+        self.put(0x2000_0000_0000_0000 | i as u64)
+    }
+    fn write_u64(&mut self, i: u64) {
+        self.put(i)
+    }
+    fn write_usize(&mut self, i: usize) {
+        self.put(i as u64)
+    }
+    fn write_u128(&mut self, i: u128) {
+        self.put(i as u64);
+        self.put((i >> 64) as u64)
+    }
+}
+
+/// The observer battery on two vectors holding the same (len, bits), in three groups (a
+/// harness with heap vectors and the whole battery does not finish within the quick budget).
+macro_rules! observers_agree {
+    (0, $x:ident, $y:ident, $n:ident) => {
+        let i = nd::usize();
+        if i < $n {
+            assert!($x.get(i) == $y.get(i), "C03: get() depends on spare capacity / storage mode");
+        }
+        assert!($x.len() == $y.len(), "C03: len() differs");
+        assert!($x.is_zero() == $y.is_zero(), "C03: is_zero() depends on spare capacity / storage mode");
+        assert!($x.first() == $y.first() && $x.last() == $y.last(), "C03: first()/last() differ");
+        assert!($x == $y && $y == $x, "C03: vectors with equal (len, bits) compare unequal");
+        assert!($x.cmp(&$y) == std::cmp::Ordering::Equal, "C03: cmp() of equal (len, bits) is not Equal");
+    };
+    (1, $x:ident, $y:ident, $n:ident) => {
+        assert!($x.leading_zeros() == $y.leading_zeros(), "C03: leading_zeros() differs");
+        assert!($x.leading_ones() == $y.leading_ones(), "C03: leading_ones() differs");
+        assert!($x.trailing_zeros() == $y.trailing_zeros(), "C03: trailing_zeros() differs");
+        assert!($x.trailing_ones() == $y.trailing_ones(), "C03: trailing_ones() differs");
+        assert!($x.significant_bits() == $y.significant_bits(), "C03: significant_bits() differs");
+    };
+    (2, $x:ident, $y:ident, $n:ident) => {
+        assert!(u64::try_from(&$x) == u64::try_from(&$y), "C03: conversion to u64 differs");
+        assert!(u128::try_from(&$x) == u128::try_from(&$y), "C03: conversion to u128 differs");
+        let mut hx = Rec::new();
+        let mut hy = Rec::new();
+        $x.hash(&mut hx);
+        $y.hash(&mut hy);
+        assert!(hx.same(&hy), "C03: hash stream depends on spare capacity / storage mode");
+    };
+}
+
+macro_rules! h_obs {
+    ($n0:ident, $n1:ident, $n2:ident, $unw:literal, |$n:ident| $mk:block) => {
+        harness!($n0, $unw, { let (x, y, $n) = $mk; observers_agree!(0, x, y, $n); });
+        harness!($n1, $unw, { let (x, y, $n) = $mk; observers_agree!(1, x, y, $n); });
+        harness!($n2, $unw, { let (x, y, $n) = $mk; observers_agree!(2, x, y, $n); });
+    };
+}
+
+// `Bvd` with one spare word vs the exact-fit `Bvd` of the same (len, bits).
+h_obs!(c03_q_obs0_bvd_spare_vs_fit, c03_q_obs1_bvd_spare_vs_fit, c03_q_obs2_bvd_spare_vs_fit, 5, |n| {
+    let n = nd::upto(64);
+    let w0 = nd::u64() & m64(n);
+    w!(n == 64 && w0 == u64::MAX, "full word of ones next to a spare word");
+    w!(n == 0, "empty");
+    w!(n > 0 && w0 == 0, "all zeros");
+    (Bvd::new(Box::new([w0, 0u64]) as Box<[u64]>, n), Bvd::new(Box::new([w0]) as Box<[u64]>, n), n)
+});
+
+// `Bvd` 3 words allocated, 2 in use, vs exact fit.
+h_obs!(c03_q_obs0_bvd3_spare_vs_fit, c03_q_obs1_bvd3_spare_vs_fit, c03_q_obs2_bvd3_spare_vs_fit, 6, |n| {
+    let n = nd::usize();
+    nd::assume(n > 64 && n <= 128);
+    let w0 = nd::u64();
+    let w1 = nd::u64() & m64(n - 64);
+    w!(n == 128 && w1 == u64::MAX, "two full words next to a spare word");
+    w!(w0 == 0 && w1 == 0, "all zeros");
+    (Bvd::new(Box::new([w0, w1, 0u64]) as Box<[u64]>, n), Bvd::new(Box::new([w0, w1]) as Box<[u64]>, n), n)
+});
+
+// `Bv` inline vs `Bv` on the heap holding the same bits (heap: spare word when n <= 64).
+// `Bvd == Bvf` / `partial_cmp` iterate `max(bit length, words)` times (dynamic.rs:825,850), so
+// the comparison group needs unwind = len + 2: len <= 10 in quick, <= 66 in thorough.
+macro_rules! bv_pair {
+    ($max:literal) => {{
+        let n = nd::upto($max);
+        let w0 = nd::u64() & m64(n);
+        let w1 = nd::u64() & m64(if n > 64 { n - 64 } else { 0 });
+        w!(n <= 64 && w0 != 0, "heap vector with a spare word");
+        w!(n == 0, "empty");
+        (Bv::Fixed(Bvf::new([w0, w1], n)), Bv::Dynamic(Bvd::new(Box::new([w0, w1]) as Box<[u64]>, n)), n)
+    }};
+}
+harness!(c03_q_obs0_bv_inline_vs_heap_l10, 12, { let (x, y, n) = bv_pair!(10); observers_agree!(0, x, y, n); });
+harness!(c03_t_obs0_bv_inline_vs_heap_l66, 68, { let (x, y, n) = bv_pair!(66); observers_agree!(0, x, y, n); });
+harness!(c03_q_obs1_bv_inline_vs_heap, 6, { let (x, y, n) = bv_pair!(128); w!(n > 64, "both words in use"); observers_agree!(1, x, y, n); });
+harness!(c03_q_obs2_bv_inline_vs_heap, 6, { let (x, y, n) = bv_pair!(128); w!(n > 64, "both words in use"); observers_agree!(2, x, y, n); });
+
+/// Serialisation (allocates by length: concrete lengths) is blind to spare words / mode.
+macro_rules! h_obs_tovec {
+    ($name:ident, $unw:literal, $n:literal) => {
+        harness!($name, $unw, {
+            let n: usize = $n;
+            let w0 = nd::u64() & m64(n);
+            let w1 = nd::u64() & m64(if n > 64 { n - 64 } else { 0 });
+            let x = Bv::Fixed(Bvf::new([w0, w1], n));
+            let y = Bvd::new(Box::new([w0, w1, 0u64]) as Box<[u64]>, n);
+            let e = nd::endianness();
+            w!(w0 != 0, "non-zero low word");
+            let vx = x.to_vec(e);
+            let vy = y.to_vec(e);
+            assert!(vx.len() == (n + 7) / 8 && vy.len() == vx.len(), "C03: to_vec() length differs");
+            let i = nd::usize();
+            nd::assume(i < vx.len());
+            assert!(vx[i] == vy[i], "C03: to_vec() depends on spare capacity / storage mode");
+        });
+    };
+}
+h_obs_tovec!(c03_q_obs_tovec_l9, 4, 9);
+h_obs_tovec!(c03_q_obs_tovec_l64, 10, 64);
+h_obs_tovec!(c03_q_obs_tovec_l100, 15, 100);
